@@ -142,6 +142,12 @@ pub struct Stats {
     pub max_bytes: u64,
     #[serde(default)]
     pub reference_memo_hits: u64,
+    /// scratch: policy decisions of the most recent multi-worker run (read by the search loop to
+    /// size the follow-up schedules of the same case)
+    #[serde(default)]
+    pub last_policy_decisions: u64,
+    #[serde(default)]
+    pub followup_schedules: u64,
 }
 
 impl Stats {
@@ -164,6 +170,7 @@ impl Stats {
         }
         if sc.workers > 1 && sc.files.len() > 1 {
             self.interleavings.insert(r.interleave_hash);
+            self.last_policy_decisions = r.policy_decisions;
         }
     }
     pub fn merge(&mut self, o: &Stats) {
@@ -179,6 +186,7 @@ impl Stats {
         self.determinism_pairs += o.determinism_pairs;
         self.max_bytes = self.max_bytes.max(o.max_bytes);
         self.reference_memo_hits += o.reference_memo_hits;
+        self.followup_schedules += o.followup_schedules;
         for (k, v) in &o.fired {
             *self.fired.entry(k.clone()).or_insert(0) += v;
         }
@@ -845,7 +853,7 @@ impl Case {
                         let wrong = match self.mode {
                             Mode::Files => {
                                 let want: &[u8] = if *unchanged { original } else { bytes };
-                                final_bytes.as_deref() != Some(want)
+                                final_bytes.as_deref() != Some(want) && final_bytes.as_deref() != Some(&bytes[..])
                             }
                             Mode::StdinStdout => !self.knobs.stdout_tty && &r.stdout != bytes,
                             _ => false,
@@ -874,7 +882,10 @@ impl Case {
                         } else {
                             stats.probe("c17_text_changed_and_written");
                         }
-                        if got != want {
+                        // an unchanged text may be left alone or be written back; if it is
+                        // written, the bytes written must be the reference bytes
+                        let rewritten_correctly = *unchanged && got == *bytes;
+                        if got != want && !rewritten_correctly {
                             out.push(Finding {
                                 oracle: "c17.written_bytes_ne_reference".into(),
                                 detail: format!(
